@@ -435,3 +435,34 @@ func solve(query string, timeoutS int, all bool, useCvc5 bool) (SolveResult, err
 	}
 	return res, errDis
 }
+
+// splitAnd returns the top-level conjuncts of an SMT term.
+func splitAnd(t string) []string {
+	t = strings.TrimSpace(t)
+	if !strings.HasPrefix(t, "(and ") {
+		return []string{t}
+	}
+	body := t[5 : len(t)-1]
+	var out []string
+	depth := 0
+	start := 0
+	for i := 0; i < len(body); i++ {
+		switch body[i] {
+		case '(':
+			depth++
+		case ')':
+			depth--
+		case ' ':
+			if depth == 0 {
+				if p := strings.TrimSpace(body[start:i]); p != "" {
+					out = append(out, splitAnd(p)...)
+				}
+				start = i + 1
+			}
+		}
+	}
+	if p := strings.TrimSpace(body[start:]); p != "" {
+		out = append(out, splitAnd(p)...)
+	}
+	return out
+}
